@@ -31,9 +31,12 @@ mod v_socket_dns {
     macro_rules! dns_env {
         ($dev:ident, $iface:ident, $cx:ident, $now:ident) => {
             let mut $dev = NullDev { medium: Medium::Ip, mtu: 1500, checksum: ChecksumCapabilities::ignored() };
+            // `now` and every other instant of these harnesses are in MICROseconds, the unit of Instant/Duration:
+            // going through from_millis puts `(a + b) * 1000 == a * 1000 + b * 1000` in front of the SAT solver
+            // (measured: the final UNSAT proof of dns_poll_at_step 176 s, dns_dispatch_step > 10 min)
             let $now: i64 = kani::any();
-            kani::assume($now >= 0 && $now < (1i64 << 40));
-            let mut $iface = Interface::new(Config::new(HardwareAddress::Ip), &mut $dev, Instant::from_millis($now));
+            kani::assume($now >= 0 && $now < (1i64 << 50));
+            let mut $iface = Interface::new(Config::new(HardwareAddress::Ip), &mut $dev, Instant::from_micros($now));
             $iface.update_ip_addrs(|a| {
                 a.push(IpCidr::new(IpAddress::Ipv4(LOCAL4), 24)).unwrap();
             });
@@ -41,7 +44,9 @@ mod v_socket_dns {
         };
     }
 
-    fn any_ms_in(lo: i64, hi: i64) -> i64 {
+    const SEC: i64 = 1_000_000;
+
+    fn any_us_in(lo: i64, hi: i64) -> i64 {
         let t: i64 = kani::any();
         kani::assume(t >= lo && t <= hi);
         t
@@ -405,9 +410,9 @@ mod v_socket_dns {
         let port: u16 = kani::any();
         kani::assume(port > 1024);
         let idx = any_lt(2);
-        let ta = if kani::any() { Some(Instant::from_millis(any_ms_in(0, now + 10_000))) } else { None };
-        let ra = Instant::from_millis(any_ms_in(0, now + 10_000));
-        let delay = Duration::from_millis(1000 + any_le(9000) as u64);
+        let ta = if kani::any() { Some(Instant::from_micros(any_us_in(0, now + 10 * SEC))) } else { None };
+        let ra = Instant::from_micros(any_us_in(0, now + 10 * SEC));
+        let delay = Duration::from_micros((SEC as usize + any_le(9 * SEC as usize)) as u64);
         {
             let pq = pending_of(&mut s, 0);
             assert!(pq.name.as_slice() == &QNAME_RAW[..], "prop:c19_start_query_encodes_labels");
@@ -614,6 +619,8 @@ mod v_socket_dns {
         nrec: 1, o: [Owner::Ptr(QN_OFF), Owner::Ptr(QN_OFF)], rd: [Rd::A, Rd::A], qclass: 1, class: [1, 1], rdlen_delta: [0, 0], cut: 0, complete: false,
     };
     const F_TWO: Form = Form { nrec: 2, ..F_ONE };
+    /// RDATA offset of record 1 when its owner is a 2-byte pointer
+    const RD1: usize = ANS_OFF + 12;
 
     /// Run `process_form` on the form selected by a symbolic index: every arm is executed with its own concrete
     /// shape, the solver picks the arm.
@@ -633,7 +640,7 @@ mod v_socket_dns {
         }};
     }
 
-    // @harness props=C19,C03 cfg=KN tier=q to=900 mem=4 unwind=10 opts=nomem covers=6 funcs=dns::Socket::accepts;dns::Socket::process;dns::Socket::start_query;wire::dns::Packet::parse_name;wire::dns::Question::parse;wire::dns::Record::parse;dns::eq_names bounds=query_name_layout_<2>xx<1>x_symbolic_label_bytes;_type_A_or_AAAA;_response_template:_all_header_fields_symbolic_(id,_flags,_4_counts),_question_of_the_same_layout_with_symbolic_label_bytes_and_type,_one_answer_record_owned_by_pointer_0xc00c,_TYPE_A_or_AAAA_(two_concrete_shapes),_symbolic_TTL_and_RDATA;_source_IPv4_any_or_2001:db8::x,_ports_any
+    // @harness props=C19,C03 cfg=KN tier=q to=900 mem=6 unwind=7 opts=nomem covers=6 funcs=dns::Socket::accepts;dns::Socket::process;dns::Socket::start_query;wire::dns::Packet::parse_name;wire::dns::Question::parse;wire::dns::Record::parse;wire::dns::RecordData::parse;dns::eq_names;dns::copy_name bounds=query_name_<1>x<1>y_with_symbolic_label_bytes,_type_A_or_AAAA,_txid/port/timers_symbolic;_response_=_byte_template_with_symbolic_id/flags/QDCOUNT/ANCOUNT/NSCOUNT/ARCOUNT,_question_<1>x<1>y_with_symbolic_label_bytes_and_TYPE,_concrete_record_layout_per_arm_with_symbolic_TTL/RDATA;_source_any_IPv4_or_2001:db8::x,_ports_any;_arms:_one_answer_record_owned_by_pointer_0xc00c,_TYPE_A_/_TYPE_AAAA
     #[kani::proof]
     pub(crate) fn dns_process_ptrq() {
         let (sel, o) = one_of!(Form { complete: true, ..F_ONE }, Form { rd: [Rd::Aaaa, Rd::A], complete: true, ..F_ONE });
@@ -645,7 +652,7 @@ mod v_socket_dns {
         kani::cover!(o.failed && o.rcode == 0 && o.an == 0, "answerless response failed the query");
     }
 
-    // @harness props=C19,C03 cfg=KN tier=q to=900 mem=4 unwind=10 opts=nomem covers=3 funcs=dns::Socket::process;wire::dns::Record::parse;wire::dns::RecordData::parse;dns::eq_names;dns::copy_name bounds=as_dns_process_ptrq;_the_single_answer_record_is_a_CNAME_(RDATA_<1>x+pointer_to_the_question's_last_label,_or_<2>xx<0>)_or_an_NS_record
+    // @harness props=C19,C03 cfg=KN tier=q to=900 mem=6 unwind=7 opts=nomem covers=3 funcs=dns::Socket::accepts;dns::Socket::process;dns::Socket::start_query;wire::dns::Packet::parse_name;wire::dns::Question::parse;wire::dns::Record::parse;wire::dns::RecordData::parse;dns::eq_names;dns::copy_name bounds=query_name_<1>x<1>y_with_symbolic_label_bytes,_type_A_or_AAAA,_txid/port/timers_symbolic;_response_=_byte_template_with_symbolic_id/flags/QDCOUNT/ANCOUNT/NSCOUNT/ARCOUNT,_question_<1>x<1>y_with_symbolic_label_bytes_and_TYPE,_concrete_record_layout_per_arm_with_symbolic_TTL/RDATA;_source_any_IPv4_or_2001:db8::x,_ports_any;_arms:_the_single_answer_record_(owner_0xc00c)_is_a_CNAME_with_RDATA_<1>x+pointer_to_the_question's_last_label_/_a_CNAME_with_RDATA_<2>xx<0>_/_an_NS_record
     #[kani::proof]
     pub(crate) fn dns_process_no_address() {
         let (sel, o) = one_of!(
@@ -659,74 +666,105 @@ mod v_socket_dns {
         kani::cover!(o.acc && o.id_ok && o.port_ok && o.question_ok && o.qr && o.an == 2 && !o.failed, "ANCOUNT beyond the message: response dropped");
     }
 
-    // @harness props=C19,C03 cfg=KN tier=q to=900 mem=4 unwind=10 opts=nomem covers=3 funcs=dns::Socket::process;wire::dns::Packet::parse_name;wire::dns::Record::parse;dns::eq_names bounds=as_dns_process_ptrq_(TYPE_A);_the_answer's_owner_name_is_written_inline_<2>xx<1>x<0>_with_symbolic_label_bytes,_or_as_<2>xx+pointer_to_the_question's_last_label_/_to_the_question_name_/_to_itself
+    // @harness props=C19,C03,C07 cfg=KN tier=q to=900 mem=6 unwind=7 opts=nomem covers=3 funcs=dns::Socket::accepts;dns::Socket::process;dns::Socket::start_query;wire::dns::Packet::parse_name;wire::dns::Question::parse;wire::dns::Record::parse;wire::dns::RecordData::parse;dns::eq_names;dns::copy_name bounds=query_name_<1>x<1>y_with_symbolic_label_bytes,_type_A_or_AAAA,_txid/port/timers_symbolic;_response_=_byte_template_with_symbolic_id/flags/QDCOUNT/ANCOUNT/NSCOUNT/ARCOUNT,_question_<1>x<1>y_with_symbolic_label_bytes_and_TYPE,_concrete_record_layout_per_arm_with_symbolic_TTL/RDATA;_source_any_IPv4_or_2001:db8::x,_ports_any;_arms:_one_A_record_whose_owner_is_inline_<1>x<1>y<0>_/_<1>x+pointer_to_the_question's_last_label_/_<1>x+pointer_to_itself
     #[kani::proof]
     pub(crate) fn dns_process_inline_labelptr() {
         let (sel, o) = one_of!(
             Form { o: [Owner::Inline, Owner::Inline], complete: true, ..F_ONE },
             Form { o: [Owner::LabelPtr(QSUF_OFF), Owner::Inline], complete: true, ..F_ONE },
-            Form { o: [Owner::LabelPtr(QN_OFF), Owner::Inline], ..F_ONE },
             Form { o: [Owner::LabelPtr(SELF), Owner::Inline], ..F_ONE },
         );
+        if sel == 2 {
+            assert!(!o.completed, "prop:c19_pointer_loop_never_completes_query");
+        }
         kani::cover!(o.completed && o.naddr == 1 && sel == 0, "query completed from inline owner name");
         kani::cover!(o.completed && sel == 1, "completed through label + pointer to the question's last label");
         kani::cover!(o.failed && o.other_name && o.rcode == 0 && sel == 0, "record for another name ignored");
     }
 
-    // @harness props=C19,C03,C07 cfg=KN tier=q to=900 mem=4 unwind=10 opts=nomem covers=4 funcs=dns::Socket::process;wire::dns::Packet::parse_name;dns::eq_names bounds=as_dns_process_ptrq_(TYPE_A);_the_answer's_owner_name_is_a_compression_pointer_to:_itself,_the_question's_last_label,_the_question's_root_octet,_its_own_RDATA_(forward,_symbolic_bytes),_the_message_id_(symbolic_bytes),_the_first_offset_beyond_the_message,_0x3fff
+    // @harness props=C19,C03,C07 cfg=KN tier=q to=900 mem=6 unwind=7 opts=nomem covers=3 funcs=dns::Socket::accepts;dns::Socket::process;dns::Socket::start_query;wire::dns::Packet::parse_name;wire::dns::Question::parse;wire::dns::Record::parse;wire::dns::RecordData::parse;dns::eq_names;dns::copy_name bounds=query_name_<1>x<1>y_with_symbolic_label_bytes,_type_A_or_AAAA,_txid/port/timers_symbolic;_response_=_byte_template_with_symbolic_id/flags/QDCOUNT/ANCOUNT/NSCOUNT/ARCOUNT,_question_<1>x<1>y_with_symbolic_label_bytes_and_TYPE,_concrete_record_layout_per_arm_with_symbolic_TTL/RDATA;_source_any_IPv4_or_2001:db8::x,_ports_any;_arms:_one_A_record_whose_owner_is_a_compression_pointer_to_itself_/_to_the_question's_last_label_/_to_the_question's_root_octet
     #[kani::proof]
-    pub(crate) fn dns_process_pointers() {
+    pub(crate) fn dns_process_pointers_back() {
         let (sel, o) = one_of!(
             Form { o: [Owner::Ptr(SELF), Owner::Inline], ..F_ONE },
             Form { o: [Owner::Ptr(QSUF_OFF), Owner::Inline], ..F_ONE },
             Form { o: [Owner::Ptr(QROOT_OFF), Owner::Inline], ..F_ONE },
+        );
+        if sel == 0 {
+            assert!(!o.completed, "prop:c19_pointer_loop_never_completes_query");
+        }
+        kani::cover!(sel == 0 && o.acc && o.id_ok && o.port_ok && o.question_ok && o.qr && o.an == 1 && !o.failed, "self-pointer: response dropped, query still pending");
+        kani::cover!(sel == 1 && o.failed && o.rcode == 0 && o.other_name, "pointer to a suffix of the question name ignored");
+        kani::cover!(sel == 2 && o.failed && o.rcode == 0 && o.other_name, "pointer to the root name ignored");
+    }
+
+    // @harness props=C19,C03,C07 cfg=KN tier=q to=900 mem=6 unwind=7 opts=nomem covers=3 funcs=dns::Socket::accepts;dns::Socket::process;dns::Socket::start_query;wire::dns::Packet::parse_name;wire::dns::Question::parse;wire::dns::Record::parse;wire::dns::RecordData::parse;dns::eq_names;dns::copy_name bounds=query_name_<1>x<1>y_with_symbolic_label_bytes,_type_A_or_AAAA,_txid/port/timers_symbolic;_response_=_byte_template_with_symbolic_id/flags/QDCOUNT/ANCOUNT/NSCOUNT/ARCOUNT,_question_<1>x<1>y_with_symbolic_label_bytes_and_TYPE,_concrete_record_layout_per_arm_with_symbolic_TTL/RDATA;_source_any_IPv4_or_2001:db8::x,_ports_any;_arms:_one_A_record_whose_owner_is_a_compression_pointer_into_its_own_RDATA_(forward,_symbolic_bytes)_/_to_the_message_id_(symbolic_bytes)_/_to_the_first_offset_beyond_the_message_/_to_0x3fff
+    #[kani::proof]
+    pub(crate) fn dns_process_pointers_wild() {
+        let (sel, o) = one_of!(
             Form { o: [Owner::Ptr(ANS_OFF + 12), Owner::Inline], ..F_ONE },
             Form { o: [Owner::Ptr(0), Owner::Inline], ..F_ONE },
             Form { o: [Owner::Ptr(ANS_OFF + 16), Owner::Inline], ..F_ONE },
             Form { o: [Owner::Ptr(0x3fff), Owner::Inline], ..F_ONE },
         );
-        if sel == 0 || sel == 5 || sel == 6 {
-            assert!(!o.completed, "prop:c19_self_or_out_of_range_pointer_never_completes_query");
+        if sel >= 2 {
+            assert!(!o.completed, "prop:c19_out_of_range_pointer_never_completes_query");
         }
-        kani::cover!(sel == 0 && o.acc && o.id_ok && o.port_ok && o.question_ok && o.qr && o.an == 1 && !o.failed, "self-pointer: response dropped, query still pending");
-        kani::cover!(sel == 1 && o.failed && o.rcode == 0 && o.other_name, "pointer to a suffix of the question name ignored");
-        kani::cover!(sel == 3 && o.failed && o.rcode == 0, "forward pointer into RDATA: other name ignored");
-        kani::cover!(sel == 5 && o.acc && o.id_ok && o.port_ok && o.question_ok && o.qr && o.an == 1 && !o.failed, "pointer beyond the message: response dropped");
+        kani::cover!(sel == 0 && o.failed && o.rcode == 0, "forward pointer into RDATA: other name ignored");
+        kani::cover!(sel == 1 && o.failed && o.rcode == 0, "pointer to the header: other name ignored");
+        kani::cover!(sel == 2 && o.acc && o.id_ok && o.port_ok && o.question_ok && o.qr && o.an == 1 && !o.failed, "pointer beyond the message: response dropped");
     }
 
-    // @harness props=C19,C03 cfg=KN tier=q to=900 mem=4 unwind=10 opts=nomem covers=4 funcs=dns::Socket::process;wire::dns::Packet::parse_name;wire::dns::Record::parse;dns::eq_names;dns::copy_name bounds=two_answer_records:_CNAME_owned_by_0xc00c_(RDATA_<1>x+pointer_to_the_question's_last_label,_to_the_question_name,_or_to_itself)_then_an_A_record_owned_by_a_pointer_to_the_CNAME's_RDATA_/_by_0xc00c_/_by_an_inline_name;_ANCOUNT_symbolic
+    // @harness props=C19,C03 cfg=KN tier=q to=900 mem=6 unwind=7 opts=nomem covers=2 funcs=dns::Socket::accepts;dns::Socket::process;dns::Socket::start_query;wire::dns::Packet::parse_name;wire::dns::Question::parse;wire::dns::Record::parse;wire::dns::RecordData::parse;dns::eq_names;dns::copy_name bounds=query_name_<1>x<1>y_with_symbolic_label_bytes,_type_A_or_AAAA,_txid/port/timers_symbolic;_response_=_byte_template_with_symbolic_id/flags/QDCOUNT/ANCOUNT/NSCOUNT/ARCOUNT,_question_<1>x<1>y_with_symbolic_label_bytes_and_TYPE,_concrete_record_layout_per_arm_with_symbolic_TTL/RDATA;_source_any_IPv4_or_2001:db8::x,_ports_any;_arms:_CNAME_owned_by_0xc00c_(RDATA_<1>x+pointer_to_the_question's_last_label)_then_an_A_record_owned_by_a_pointer_to_that_RDATA_/_by_0xc00c
     #[kani::proof]
     pub(crate) fn dns_process_cname_then() {
-        const RD1: usize = ANS_OFF + 12; // RDATA of record 1 (owner is a 2-byte pointer)
         let (sel, o) = one_of!(
             Form { o: [Owner::Ptr(QN_OFF), Owner::Ptr(RD1)], rd: [Rd::CnameLabelPtr(QSUF_OFF), Rd::A], ..F_TWO },
             Form { o: [Owner::Ptr(QN_OFF), Owner::Ptr(QN_OFF)], rd: [Rd::CnameLabelPtr(QSUF_OFF), Rd::A], ..F_TWO },
+        );
+        kani::cover!(sel == 0 && o.completed && o.cname_followed && o.naddr == 1, "CNAME followed");
+        kani::cover!(sel == 1 && o.failed && o.cname_followed && o.other_name && o.rcode == 0, "record for the original name after a CNAME ignored");
+    }
+
+    // @harness props=C19,C03,C07 cfg=KN tier=q to=900 mem=6 unwind=7 opts=nomem covers=3 funcs=dns::Socket::accepts;dns::Socket::process;dns::Socket::start_query;wire::dns::Packet::parse_name;wire::dns::Question::parse;wire::dns::Record::parse;wire::dns::RecordData::parse;dns::eq_names;dns::copy_name bounds=query_name_<1>x<1>y_with_symbolic_label_bytes,_type_A_or_AAAA,_txid/port/timers_symbolic;_response_=_byte_template_with_symbolic_id/flags/QDCOUNT/ANCOUNT/NSCOUNT/ARCOUNT,_question_<1>x<1>y_with_symbolic_label_bytes_and_TYPE,_concrete_record_layout_per_arm_with_symbolic_TTL/RDATA;_source_any_IPv4_or_2001:db8::x,_ports_any;_arms:_CNAME_owned_by_0xc00c_with_RDATA_<2>xx<0>_then_an_A_record_with_inline_owner_/_RDATA_<1>x+pointer_to_the_question_name_(three_labels)_/_RDATA_<1>x+pointer_to_itself,_each_then_an_A_record_owned_by_a_pointer_to_that_RDATA
+    #[kani::proof]
+    pub(crate) fn dns_process_cname_forms() {
+        let (sel, o) = one_of!(
             Form { o: [Owner::Ptr(QN_OFF), Owner::Inline], rd: [Rd::CnameInline, Rd::A], ..F_TWO },
             Form { o: [Owner::Ptr(QN_OFF), Owner::Ptr(RD1)], rd: [Rd::CnameLabelPtr(QN_OFF), Rd::A], ..F_TWO },
             Form { o: [Owner::Ptr(QN_OFF), Owner::Ptr(RD1)], rd: [Rd::CnameLabelPtr(SELF), Rd::A], ..F_TWO },
         );
-        kani::cover!(sel == 0 && o.completed && o.cname_followed && o.naddr == 1, "CNAME followed");
-        kani::cover!(sel == 1 && o.failed && o.cname_followed && o.other_name && o.rcode == 0, "record for the original name after a CNAME ignored");
-        kani::cover!(sel == 3 && o.completed, "CNAME to a three-label name followed");
-        kani::cover!(sel == 4 && o.acc && o.id_ok && o.port_ok && o.question_ok && o.qr && o.an == 2 && !o.completed && !o.failed, "CNAME pointing at itself: response dropped");
+        if sel == 2 {
+            assert!(!o.completed, "prop:c19_pointer_loop_never_completes_query");
+        }
+        kani::cover!(sel == 0 && o.failed && o.cname_followed && o.rcode == 0, "address for a name other than the CNAME target ignored");
+        kani::cover!(sel == 1 && o.completed, "CNAME to a three-label name followed");
+        kani::cover!(sel == 2 && o.acc && o.id_ok && o.port_ok && o.question_ok && o.qr && o.an == 2 && !o.completed && !o.failed, "CNAME pointing at itself: response dropped");
     }
 
-    // @harness props=C19,C03 cfg=KN tier=q to=900 mem=4 unwind=10 opts=nomem covers=4 funcs=dns::Socket::process;wire::dns::Record::parse;dns::eq_names bounds=two_answer_records_owned_by_0xc00c_/_inline_names:_A+A,_A+AAAA,_NS+A;_ANCOUNT_symbolic
+    // @harness props=C19,C03 cfg=KN tier=q to=900 mem=6 unwind=7 opts=nomem covers=4 funcs=dns::Socket::accepts;dns::Socket::process;dns::Socket::start_query;wire::dns::Packet::parse_name;wire::dns::Question::parse;wire::dns::Record::parse;wire::dns::RecordData::parse;dns::eq_names;dns::copy_name bounds=query_name_<1>x<1>y_with_symbolic_label_bytes,_type_A_or_AAAA,_txid/port/timers_symbolic;_response_=_byte_template_with_symbolic_id/flags/QDCOUNT/ANCOUNT/NSCOUNT/ARCOUNT,_question_<1>x<1>y_with_symbolic_label_bytes_and_TYPE,_concrete_record_layout_per_arm_with_symbolic_TTL/RDATA;_source_any_IPv4_or_2001:db8::x,_ports_any;_arms:_two_answer_records:_A+A_owned_by_0xc00c_/_A_owned_by_0xc00c_+_A_with_inline_owner_/_NS+A_owned_by_0xc00c
     #[kani::proof]
     pub(crate) fn dns_process_two_records() {
         let (sel, o) = one_of!(
             Form { ..F_TWO },
             Form { o: [Owner::Ptr(QN_OFF), Owner::Inline], ..F_TWO },
-            Form { rd: [Rd::A, Rd::Aaaa], ..F_TWO },
             Form { rd: [Rd::Other, Rd::A], ..F_TWO },
         );
         kani::cover!(sel == 0 && o.completed && o.naddr == 2, "query completed with two addresses");
         kani::cover!(sel == 1 && o.completed && o.naddr == 1 && o.other_name, "second record for another name ignored");
         kani::cover!(o.completed && o.an == 1, "record beyond ANCOUNT not used");
-        kani::cover!(sel == 3 && o.completed && o.naddr == 1, "NS record skipped, address taken");
+        kani::cover!(sel == 2 && o.completed && o.naddr == 1, "NS record skipped, address taken");
     }
 
-    // @harness props=C19,C03,C07 cfg=KN tier=q to=900 mem=4 unwind=10 opts=nomem covers=4 funcs=dns::Socket::process;wire::dns::Packet::new_checked;wire::dns::Question::parse;wire::dns::Record::parse;wire::dns::RecordData::parse bounds=dns_process_ptrq's_template_with_one_defect:_question_CLASS_2,_record_CLASS_2,_RDLENGTH_3_/_5_for_an_A_record,_message_cut_to_11_/_12_/_21_/_22_/_33_/_37_bytes
+    // @harness props=C19,C03 cfg=KN tier=t to=900 mem=6 unwind=7 opts=nomem covers=2 funcs=dns::Socket::accepts;dns::Socket::process;dns::Socket::start_query;wire::dns::Packet::parse_name;wire::dns::Question::parse;wire::dns::Record::parse;wire::dns::RecordData::parse;dns::eq_names;dns::copy_name bounds=query_name_<1>x<1>y_with_symbolic_label_bytes,_type_A_or_AAAA,_txid/port/timers_symbolic;_response_=_byte_template_with_symbolic_id/flags/QDCOUNT/ANCOUNT/NSCOUNT/ARCOUNT,_question_<1>x<1>y_with_symbolic_label_bytes_and_TYPE,_concrete_record_layout_per_arm_with_symbolic_TTL/RDATA;_source_any_IPv4_or_2001:db8::x,_ports_any;_arms:_two_answer_records_owned_by_0xc00c:_A+AAAA_/_AAAA+AAAA
+    #[kani::proof]
+    pub(crate) fn dns_process_two_records_mixed() {
+        let (sel, o) = one_of!(Form { rd: [Rd::A, Rd::Aaaa], ..F_TWO }, Form { rd: [Rd::Aaaa, Rd::Aaaa], ..F_TWO });
+        kani::cover!(sel == 0 && o.completed && o.naddr == 2, "query completed with an IPv4 and an IPv6 address");
+        kani::cover!(sel == 1 && o.completed && o.naddr == 2, "query completed with two IPv6 addresses");
+    }
+
+    // @harness props=C19,C03,C07 cfg=KN tier=q to=900 mem=6 unwind=7 opts=nomem covers=3 funcs=dns::Socket::accepts;dns::Socket::process;dns::Socket::start_query;wire::dns::Packet::parse_name;wire::dns::Question::parse;wire::dns::Record::parse;wire::dns::RecordData::parse;dns::eq_names;dns::copy_name bounds=query_name_<1>x<1>y_with_symbolic_label_bytes,_type_A_or_AAAA,_txid/port/timers_symbolic;_response_=_byte_template_with_symbolic_id/flags/QDCOUNT/ANCOUNT/NSCOUNT/ARCOUNT,_question_<1>x<1>y_with_symbolic_label_bytes_and_TYPE,_concrete_record_layout_per_arm_with_symbolic_TTL/RDATA;_source_any_IPv4_or_2001:db8::x,_ports_any;_arms:_dns_process_ptrq's_A_template_with_one_defect:_question_CLASS_2_/_record_CLASS_2_/_RDLENGTH_3_/_RDLENGTH_5
     #[kani::proof]
     pub(crate) fn dns_process_malformed() {
         let (sel, o) = one_of!(
@@ -734,6 +772,17 @@ mod v_socket_dns {
             Form { class: [2, 1], ..F_ONE },
             Form { rdlen_delta: [-1, 0], ..F_ONE },
             Form { rdlen_delta: [1, 0], ..F_ONE },
+        );
+        assert!(!o.completed, "prop:c19_malformed_response_never_completes_query");
+        kani::cover!(sel == 0 && o.acc && o.id_ok && o.port_ok && o.qr && o.an == 1 && !o.failed, "question of another class: response dropped");
+        kani::cover!(sel == 1 && o.acc && o.id_ok && o.port_ok && o.question_ok && o.qr && o.an == 1 && !o.failed, "record of another class: response dropped");
+        kani::cover!(sel == 2 && o.acc && o.id_ok && o.port_ok && o.question_ok && o.qr && o.an == 1 && !o.failed, "A record with 3 RDATA bytes: response dropped");
+    }
+
+    // @harness props=C19,C03,C07 cfg=KN tier=q to=900 mem=6 unwind=7 opts=nomem covers=4 funcs=dns::Socket::accepts;dns::Socket::process;dns::Socket::start_query;wire::dns::Packet::parse_name;wire::dns::Question::parse;wire::dns::Record::parse;wire::dns::RecordData::parse;dns::eq_names;dns::copy_name bounds=query_name_<1>x<1>y_with_symbolic_label_bytes,_type_A_or_AAAA,_txid/port/timers_symbolic;_response_=_byte_template_with_symbolic_id/flags/QDCOUNT/ANCOUNT/NSCOUNT/ARCOUNT,_question_<1>x<1>y_with_symbolic_label_bytes_and_TYPE,_concrete_record_layout_per_arm_with_symbolic_TTL/RDATA;_source_any_IPv4_or_2001:db8::x,_ports_any;_arms:_dns_process_ptrq's_A_template_cut_to_11_/_12_/_20_/_21_/_32_/_36_of_its_37_bytes
+    #[kani::proof]
+    pub(crate) fn dns_process_truncated() {
+        let (sel, o) = one_of!(
             Form { cut: 11, ..F_ONE },
             Form { cut: 12, ..F_ONE },
             Form { cut: ANS_OFF - 1, ..F_ONE },
@@ -742,28 +791,67 @@ mod v_socket_dns {
             Form { cut: ANS_OFF + 15, ..F_ONE },
         );
         assert!(!o.completed, "prop:c19_malformed_response_never_completes_query");
-        kani::cover!(sel == 1 && o.acc && o.id_ok && o.port_ok && o.question_ok && o.qr && o.an == 1 && !o.failed, "record of another class: response dropped");
-        kani::cover!(sel == 9 && o.acc && o.id_ok && o.port_ok && o.question_ok && o.qr && o.an == 1 && !o.failed, "truncated RDATA: response dropped");
-        kani::cover!(sel == 5 && o.failed && o.rcode == 3, "NXDomain in a bare header fails the query");
-        kani::cover!(sel == 7 && o.failed && o.rcode == 0 && o.an == 0, "question-only response fails the query");
+        kani::cover!(sel == 0 && o.acc && !o.failed, "message shorter than a header dropped");
+        kani::cover!(sel == 1 && o.failed && o.rcode == 3, "NXDomain in a bare header fails the query");
+        kani::cover!(sel == 3 && o.failed && o.rcode == 0 && o.an == 0, "question-only response fails the query");
+        kani::cover!(sel == 5 && o.acc && o.id_ok && o.port_ok && o.question_ok && o.qr && o.an == 1 && !o.failed, "truncated RDATA: response dropped");
     }
 
-    // @harness props=C19 kind=mustfail cfg=KN tier=q to=900 mem=4 unwind=10 opts=nomem
+    // @harness props=C19 kind=mustfail cfg=KN tier=q to=900 mem=6 unwind=7 opts=nomem
     #[kani::proof]
     pub(crate) fn dns_process_must_fail() {
         let o = process_form(F_ONE);
         assert!(!o.completed, "prop:deliberately_false_no_response_completes_a_query");
     }
 
-    // ------------------------------------------------------------------ free bytes through the name parsers
-    // Bound: in `Packet::parse_name` every pointer jump needs >= 2 readable bytes and cuts the readable prefix to
-    // `packet[..ptr]` with `ptr < packet.len()`, so consecutive jump targets fall by >= 2: <= N/2+1 iterations of the
-    // inner loop per `next()`; every label consumes >= 2 bytes of a region and regions after a jump are disjoint:
-    // <= N labels; `parse_name_part` consumes >= 1 byte per iteration.  N = 16 => unwind N + 2.
-    // @harness props=C19,C07,C03 cfg=KN tier=q to=900 mem=6 unwind=18 opts=term covers=4 funcs=wire::dns::Packet::parse_name;wire::dns::Question::parse;wire::dns::Record::parse;wire::dns::RecordData::parse;wire::dns::parse_name_part bounds=message_of_0..=16_fully_symbolic_bytes;_name_/_question_/_record_parsed_from_any_offset;_unwind_18_=_N+2_(each_pointer_jump_shrinks_the_readable_prefix_by_>=2,_each_label_consumes_>=2_bytes)
+    // `accepts` alone, with IPv4 and IPv6 servers (comparing IPv6 addresses needs unwind 17)
+    // @harness props=C19 cfg=KN tier=q to=600 mem=4 unwind=18 opts=nomem covers=3 funcs=dns::Socket::accepts bounds=servers_8.8.8.8_and_2001:db8::53;_source_any_IPv4_address_or_any_IPv6_address,_ports_any
     #[kani::proof]
-    pub(crate) fn dns_name_parsers_free() {
-        const N: usize = 16;
+    pub(crate) fn dns_accepts() {
+        let mut slots: [Option<DnsQuery>; 1 + PAD] = [None, None, None];
+        let servers = [IpAddress::Ipv4(S4), IpAddress::Ipv6(S6)];
+        let s = Socket::new(&servers[..], &mut slots[..1]);
+        let sport: u16 = kani::any();
+        let dport: u16 = kani::any();
+        let v4: bool = kani::any();
+        let so: [u8; 16] = kani::any();
+        let ip_repr = if v4 {
+            IpRepr::Ipv4(Ipv4Repr { src_addr: Ipv4Address::new(so[0], so[1], so[2], so[3]), dst_addr: LOCAL4, next_header: IpProtocol::Udp, payload_len: 20, hop_limit: 64 })
+        } else {
+            IpRepr::Ipv6(Ipv6Repr { src_addr: Ipv6Address::from_octets(so), dst_addr: LOCAL6, next_header: IpProtocol::Udp, payload_len: 20, hop_limit: 64 })
+        };
+        let s6 = S6.octets();
+        let is_s6 = so[0] == s6[0] && so[1] == s6[1] && so[2] == s6[2] && so[3] == s6[3] && so[4] == s6[4] && so[5] == s6[5] && so[6] == s6[6] && so[7] == s6[7]
+            && so[8] == s6[8] && so[9] == s6[9] && so[10] == s6[10] && so[11] == s6[11] && so[12] == s6[12] && so[13] == s6[13] && so[14] == s6[14] && so[15] == s6[15];
+        let from_server = if v4 { so[0] == 8 && so[1] == 8 && so[2] == 8 && so[3] == 8 } else { is_s6 };
+        let acc = s.accepts(&ip_repr, &UdpRepr { src_port: sport, dst_port: dport });
+        assert!(acc == ((sport == 53 && from_server) || sport == 5353), "prop:c19_accepts_only_port_53_of_configured_server_or_mdns_port");
+        kani::cover!(acc && !v4 && sport == 53, "IPv6 server accepted");
+        kani::cover!(!acc && sport == 53 && !v4, "port 53 of another IPv6 host refused");
+        kani::cover!(acc && sport == 5353 && !from_server, "mDNS port accepted from anyone");
+    }
+
+    // ------------------------------------------------------------------ free bytes through the name parsers
+    // Termination bound of `Packet::parse_name` on an N-byte message: every pointer jump needs >= 2 readable bytes and
+    // cuts the readable prefix to `packet[..ptr]` with `ptr < packet.len()`, so consecutive jump targets fall by >= 2:
+    // <= N/2+1 iterations of the inner loop per `next()`; every label consumes >= 2 bytes of a region and the regions
+    // after a jump are disjoint: <= N labels in total.  `parse_name_part` consumes >= 1 byte per iteration.
+    // Sizes: measured, 16 free bytes through the iterator exhaust 8 GB (the `Option<Result<&[u8]>>` items merge
+    // under symbolic conditions); 8 bytes through the iterator, 16 through Question/Record::parse are decided.
+    // @harness props=C19,C07,C03 cfg=KN tier=q to=900 mem=6 unwind=8 opts=term covers=3 funcs=wire::dns::Packet::parse_name bounds=message_of_0..=6_fully_symbolic_bytes;_name_iterated_from_any_offset;_unwind_8_=_N+2_(each_pointer_jump_shrinks_the_readable_prefix_by_>=2_bytes,_each_label_consumes_>=2_bytes)
+    #[kani::proof]
+    pub(crate) fn dns_name_iter_free() {
+        name_iter_free::<6>();
+    }
+
+    // measured alone: 413 s, 5 GB
+    // @harness props=C19,C07,C03 cfg=KN tier=t to=1800 mem=8 unwind=10 opts=term covers=3 funcs=wire::dns::Packet::parse_name bounds=message_of_0..=8_fully_symbolic_bytes;_name_iterated_from_any_offset;_unwind_10_=_N+2
+    #[kani::proof]
+    pub(crate) fn dns_name_iter_free8() {
+        name_iter_free::<8>();
+    }
+
+    fn name_iter_free<const N: usize>() {
         let bytes: [u8; N] = kani::any();
         let len = any_le(N);
         let buf = &bytes[..len];
@@ -774,6 +862,7 @@ mod v_socket_dns {
         let mut errored = false;
         {
             let mut it = p.parse_name(&buf[start..]);
+            // no explicit bound: the unwinding assertion of this loop (and of the loop inside next()) is the claim
             loop {
                 match it.next() {
                     None => break,
@@ -790,32 +879,47 @@ mod v_socket_dns {
             }
         }
         assert!(label_bytes <= 2 * len, "prop:c07_dns_name_bytes_bounded_by_message");
+        kani::cover!(start < len && !errored && labels >= 2 && bytes[start] >= 0xc0, "compressed name of two labels iterated");
+        kani::cover!(errored && len >= 2 && start + 1 < len && bytes[start] == 0xc0 && bytes[start + 1] as usize == start, "self-pointer rejected");
+        kani::cover!(errored && len == N && start == 0 && bytes[0] == 0xc0 && bytes[1] == 2 && bytes[2] == 0xc0 && bytes[3] == 4, "forward pointer to a forward pointer rejected");
+    }
+
+    // @harness props=C19,C07,C03 cfg=KN tier=q to=900 mem=8 unwind=18 opts=term covers=3 funcs=wire::dns::Question::parse;wire::dns::Record::parse;wire::dns::RecordData::parse;wire::dns::parse_name_part bounds=0..=16_fully_symbolic_bytes_parsed_as_a_question_and_as_a_resource_record;_unwind_18_=_N+2_(parse_name_part_consumes_>=1_byte_per_iteration)
+    #[kani::proof]
+    pub(crate) fn dns_name_parsers_free() {
+        const N: usize = 16;
+        let bytes: [u8; N] = kani::any();
+        let len = any_le(N);
+        let buf = &bytes[..len];
         let mut q_ok = false;
-        if let Ok((rest, q)) = Question::parse(&buf[start..]) {
+        if let Ok((rest, q)) = Question::parse(buf) {
             q_ok = true;
-            assert!(q.name.len() >= 1 && q.name.len() + 4 + rest.len() == len - start, "prop:c07_dns_question_accounts_for_every_byte");
+            assert!(q.name.len() >= 1 && q.name.len() + 4 + rest.len() == len, "prop:c07_dns_question_accounts_for_every_byte");
         }
         let mut r_ok = false;
-        if let Ok((rest, r)) = Record::parse(&buf[start..]) {
+        let mut r_a = false;
+        if let Ok((rest, r)) = Record::parse(buf) {
             r_ok = true;
             let dl = match r.data {
-                RecordData::A(_) => 4,
+                RecordData::A(_) => {
+                    r_a = true;
+                    4
+                }
                 RecordData::Aaaa(_) => 16,
                 RecordData::Cname(d) => d.len(),
                 RecordData::Other(_, d) => d.len(),
             };
-            assert!(r.name.len() >= 1 && r.name.len() + 10 + dl + rest.len() == len - start, "prop:c07_dns_record_accounts_for_every_byte");
+            assert!(r.name.len() >= 1 && r.name.len() + 10 + dl + rest.len() == len, "prop:c07_dns_record_accounts_for_every_byte");
         }
-        kani::cover!(start < len && !errored && labels >= 2 && bytes[start] >= 0xc0 && start >= 6, "compressed name of two labels iterated");
-        kani::cover!(errored && len >= 2 && start + 1 < len && bytes[start] == 0xc0 && bytes[start + 1] as usize == start, "self-pointer rejected");
-        kani::cover!(q_ok && start == 0 && len == N, "question parsed");
-        kani::cover!(r_ok && matches!(Record::parse(&buf[start..]), Ok((_, Record { data: RecordData::A(_), .. }))), "A record parsed");
+        kani::cover!(q_ok && len == N && bytes[0] == 3, "question parsed");
+        kani::cover!(r_ok && r_a, "A record parsed");
+        kani::cover!(!q_ok && !r_ok && len == N, "16 bytes rejected by both parsers");
     }
 
-    // @harness props=C19,C07,C03 cfg=KN tier=q to=900 mem=6 unwind=16 opts=term covers=3 funcs=dns::copy_name;dns::eq_names;wire::dns::Packet::parse_name bounds=message_of_0..=12_fully_symbolic_bytes;_name_at_any_offset_copied_into_a_64-byte_name_buffer_and_compared_with_itself;_unwind_16
+    // @harness props=C19,C07,C03 cfg=KN tier=q to=900 mem=8 unwind=10 opts=term covers=3 funcs=dns::copy_name;dns::eq_names;wire::dns::Packet::parse_name bounds=message_of_0..=8_fully_symbolic_bytes;_name_at_any_offset_copied_into_a_64-byte_name_buffer_and_compared_with_itself;_unwind_10_=_N+2
     #[kani::proof]
     pub(crate) fn dns_name_copy_free() {
-        const N: usize = 12;
+        const N: usize = 8;
         let bytes: [u8; N] = kani::any();
         let len = any_le(N);
         let buf = &bytes[..len];
@@ -885,13 +989,13 @@ mod v_socket_dns {
         let eff_n = if mdns { 2 } else { ns };
         let fresh: bool = kani::any();
         let idx = any_lt(2);
-        let delay = 1000 + any_le(9000) as u64;
-        let ra = any_ms_in(0, now + 10_000);
-        let tav = any_ms_in(0, now + 10_000);
+        let delay = (SEC as usize + any_le(9 * SEC as usize)) as u64;
+        let ra = any_us_in(0, now + 10 * SEC);
+        let tav = any_us_in(0, now + 10 * SEC);
         let ta = if fresh { None } else { Some(tav) };
         if fresh {
             // as start_query leaves it
-            kani::assume(idx == 0 && delay == 1000 && ra == 0);
+            kani::assume(idx == 0 && delay == SEC as u64 && ra == 0);
         } else {
             // a dispatch that left the query pending found idx < servers; retransmit_at = an earlier now + an earlier delay
             kani::assume(idx < eff_n);
@@ -902,9 +1006,9 @@ mod v_socket_dns {
         pq.txid = txid;
         pq.port = port;
         pq.server_idx = idx;
-        pq.timeout_at = ta.map(Instant::from_millis);
-        pq.retransmit_at = Instant::from_millis(ra);
-        pq.delay = Duration::from_millis(delay);
+        pq.timeout_at = ta.map(Instant::from_micros);
+        pq.retransmit_at = Instant::from_micros(ra);
+        pq.delay = Duration::from_micros(delay);
         pq.mdns = if mdns { MulticastDns::Enabled } else { MulticastDns::Disabled };
         DPre { ns, servers, mdns, is_a, qn, txid, port, idx, ta, ra, delay }
     }
@@ -945,7 +1049,7 @@ mod v_socket_dns {
         b: [u8; QLEN],
     }
 
-    // @harness props=C19,C13 cfg=KN tier=q to=900 mem=6 unwind=26 opts=nomem covers=6 funcs=dns::Socket::dispatch;wire::dns::Repr::emit;wire::dns::Question::emit;InterfaceInner::get_source_address bounds=one_pending_query_(name_<2>xx<1>x,_A/AAAA,_unicast_or_mDNS)_in_any_state_a_dispatch_history_can_leave:_server_idx<servers,_delay_1..10_s,_timeout_at/retransmit_at_anywhere_up_to_now+10_s;_0..=2_IPv4_servers_with_symbolic_octets;_now<2^40_ms;_emit_returns_symbolic_Ok/Err
+    // @harness props=C19,C13 cfg=KN tier=q to=900 mem=6 unwind=7 opts=nomem covers=6 funcs=dns::Socket::dispatch;wire::dns::Repr::emit;wire::dns::Question::emit;InterfaceInner::get_source_address bounds=one_pending_query_(name_<1>x<1>y,_A/AAAA,_unicast_or_mDNS)_in_any_state_a_dispatch_history_can_leave:_server_idx<servers,_delay_1..10_s,_timeout_at/retransmit_at_anywhere_up_to_now+10_s;_0..=2_IPv4_servers_with_symbolic_octets;_now<2^50_us_(all_instants_in_microseconds);_emit_returns_symbolic_Ok/Err
     #[kani::proof]
     pub(crate) fn dns_dispatch_step() {
         dns_env!(dev, iface, cx, now);
@@ -985,11 +1089,11 @@ mod v_socket_dns {
         // reference
         let eff = if g.mdns { [MDNS_IPV6_ADDR, MDNS_IPV4_ADDR] } else { servers };
         let eff_n = if g.mdns { 2 } else { ns };
-        let ta_eff = match g.ta { Some(t) => t, None => now + 10_000 };
+        let ta_eff = match g.ta { Some(t) => t, None => now + 10 * SEC };
         let timed_out = ta_eff < now; // "after 10 s"
         let idx1 = g.idx + timed_out as usize;
         let ra_eff = if timed_out { 0 } else { g.ra };
-        let delay_eff = if timed_out { 1000 } else { g.delay };
+        let delay_eff = if timed_out { SEC as u64 } else { g.delay };
 
         assert!(res.is_ok() == (emit_ok || !e.seen), "prop:c09_emit_error_passed_through");
         let q = s.queries[0].as_ref().unwrap();
@@ -1004,18 +1108,17 @@ mod v_socket_dns {
             State::Pending(pq) => {
                 assert!(idx1 < eff_n, "prop:c19_fails_when_servers_exhausted");
                 assert!(pq.server_idx == idx1, "prop:c19_next_server_exactly_after_timeout");
-                let ta1 = if timed_out { now + 10_000 } else { ta_eff };
-                assert!(pq.timeout_at == Some(Instant::from_millis(ta1)), "prop:c19_timeout_armed_10s_per_server");
+                let ta1 = if timed_out { now + 10 * SEC } else { ta_eff };
+                assert!(pq.timeout_at == Some(Instant::from_micros(ta1)), "prop:c19_timeout_armed_10s_per_server");
                 // identity never changes
                 assert!(
                     pq.txid == g.txid && pq.port == g.port && pq.type_ == (if is_a { Type::A } else { Type::Aaaa })
                         && pq.name.len() == 5 && pq.name[1] == g.qn[0] && pq.name[3] == g.qn[1],
                     "prop:c19_dispatch_keeps_query_identity"
                 );
-                // compared as Instant / Duration (total_millis() would put a 64-bit division into the formula)
                 let ra1 = pq.retransmit_at;
                 let d1 = pq.delay;
-                let ms = |t: i64| Instant::from_millis(t);
+                let ms = |t: i64| Instant::from_micros(t);
                 if e.seen {
                     assert!(now >= g.ra || timed_out, "prop:c19_transmits_only_at_or_after_retransmit_at");
                     assert!(same_addr(&e.dst, &eff[idx1]), "prop:c19_query_sent_to_current_server");
@@ -1033,17 +1136,17 @@ mod v_socket_dns {
                     if emit_ok {
                         // back-off: next retransmission after the current delay, delay doubled up to the cap
                         assert!(ra1 == ms(now + delay_eff as i64), "prop:c19_retransmission_scheduled_after_current_delay");
-                        assert!(d1 == Duration::from_millis(core::cmp::min(2 * delay_eff, 10_000)), "prop:c19_delay_doubles_up_to_cap");
+                        assert!(d1 == Duration::from_micros(core::cmp::min(2 * delay_eff, 10 * SEC as u64)), "prop:c19_delay_doubles_up_to_cap");
                         // ranking argument: at a deadline either a server is consumed, or the per-server timeout instant
                         // stays put while the next deadline moves strictly (>= 1 s) forward and is <= 10 s away
-                        let dec = (idx1 > g.idx) || (idx1 == g.idx && ta1 == ta_eff && ra1 >= ms(now + 1000));
-                        assert!(dec && ra1 <= ms(now + 10_000), "prop:c19_progress_measure_decreases");
+                        let dec = (idx1 > g.idx) || (idx1 == g.idx && ta1 == ta_eff && ra1 >= ms(now + SEC));
+                        assert!(dec && ra1 <= ms(now + 10 * SEC), "prop:c19_progress_measure_decreases");
                     } else {
-                        assert!(ra1 == ms(ra_eff) && d1 == Duration::from_millis(delay_eff) && ra1 <= ms(now), "prop:c19_emit_error_leaves_query_due");
+                        assert!(ra1 == ms(ra_eff) && d1 == Duration::from_micros(delay_eff) && ra1 <= ms(now), "prop:c19_emit_error_leaves_query_due");
                     }
                 } else {
                     assert!(now < ra_eff, "prop:c19_due_query_is_transmitted");
-                    assert!(ra1 == ms(ra_eff) && d1 == Duration::from_millis(delay_eff), "prop:c19_waiting_query_unchanged");
+                    assert!(ra1 == ms(ra_eff) && d1 == Duration::from_micros(delay_eff), "prop:c19_waiting_query_unchanged");
                 }
             }
         }
@@ -1052,14 +1155,14 @@ mod v_socket_dns {
             assert!(failed || idx1 == g.idx + 1, "prop:c19_progress_measure_decreases");
         }
         kani::cover!(e.seen && emit_ok && g.ta.is_none(), "first transmission of a fresh query");
-        kani::cover!(e.seen && emit_ok && !timed_out && g.ta.is_some() && g.delay == 8000, "retransmission, delay capped at 10 s");
+        kani::cover!(e.seen && emit_ok && !timed_out && g.ta.is_some() && g.delay == 8 * SEC as u64, "retransmission, delay capped at 10 s");
         kani::cover!(e.seen && timed_out && idx1 == 1 && !g.mdns, "timeout: query sent to the next server");
         kani::cover!(failed && timed_out && !g.mdns && ns == 2, "timeout on the last server: query failed");
         kani::cover!(e.seen && g.mdns && matches!(e.dst, IpAddress::Ipv6(_)), "mDNS query to ff02::fb");
         kani::cover!(e.seen && !emit_ok, "device refused the packet");
     }
 
-    // @harness props=C19,C13 cfg=KN tier=q to=900 mem=6 unwind=26 opts=nomem covers=4 funcs=dns::Socket::poll_at;dns::Socket::dispatch bounds=pre-states_of_dns_dispatch_step;_probe_instant_anywhere_relative_to_poll_at
+    // @harness props=C19,C13 cfg=KN tier=q to=900 mem=4 unwind=7 opts=nomem covers=4 funcs=dns::Socket::poll_at;dns::Socket::dispatch bounds=pre-states_of_dns_dispatch_step;_probe_instant_anywhere_relative_to_poll_at
     #[kani::proof]
     pub(crate) fn dns_poll_at_step() {
         dns_env!(dev, iface, cx, now);
@@ -1071,7 +1174,7 @@ mod v_socket_dns {
         let _h = s.start_query(cx, QNAME, if is_a { Type::A } else { Type::Aaaa }).unwrap();
         let g = any_pending(&mut s, now, ns, servers, is_a);
         crate::vdump!("PRE now={} servers={:?} {:?}", now, &servers[..ns], s.queries[0]);
-        let nowi = Instant::from_millis(now);
+        let nowi = Instant::from_micros(now);
         let d = s.poll_at(cx);
         assert!(d != PollAt::Ingress, "prop:c19_pending_query_has_finite_deadline");
         let early = match d {
@@ -1093,8 +1196,8 @@ mod v_socket_dns {
             match &q.state {
                 State::Pending(pq) => {
                     assert!(
-                        pq.server_idx == g.idx && pq.retransmit_at == Instant::from_millis(g.ra) && pq.delay == Duration::from_millis(g.delay)
-                            && pq.timeout_at == g.ta.map(Instant::from_millis),
+                        pq.server_idx == g.idx && pq.retransmit_at == Instant::from_micros(g.ra) && pq.delay == Duration::from_micros(g.delay)
+                            && pq.timeout_at == g.ta.map(Instant::from_micros),
                         "prop:c13_no_state_change_before_poll_at"
                     );
                 }
@@ -1239,7 +1342,7 @@ mod v_socket_dns {
                     }
                     assert!(
                         pq.type_ == Type::Aaaa && pq.server_idx == 0 && pq.timeout_at.is_none() && pq.delay == RETRANSMIT_DELAY
-                            && pq.retransmit_at <= Instant::from_millis(now) && matches!(pq.mdns, MulticastDns::Enabled) == is_local,
+                            && pq.retransmit_at <= Instant::from_micros(now) && matches!(pq.mdns, MulticastDns::Enabled) == is_local,
                         "prop:c19_new_query_is_due_at_first_server"
                     );
                 }
